@@ -149,6 +149,7 @@ func main() {
 	o := hx.ParseOpts()
 	res := hx.NewResult(o, "sweep: every registered function/test/operator x arity 0..5 x tuples sampled from a boundary pool "+
 		"(numbers 0, +-1, +-2^31(+-1), 2^32, 2^63, 2^64(+3), 10^+-30, 999999999; texts empty/10kB/multi-byte/numeric/date-like/regex; nil; error; "+
+		"every ordered pair of 11 families of RELATED texts (same text in another case incl. letters whose case forms differ in UTF-8 length, prefix/suffix/substring, needle longer than haystack, composed/decomposed, multi-byte cuts) and tuples drawn from one family with probability 2/5; "+
 		"nested and lazy arrays/objects; webhook JSON incl. huge exponents; functions and anonymous functions; dates at years 1/9999), corpus of "+
 		"known tricky calls first; plus generated templates through Evaluator.Template/TemplateValue and run.EvaluateTemplate(Value). "+
 		"A call is non-trivial when it got past the arity/type wrapper into the function body (for templates: contains an expression); "+
@@ -529,6 +530,7 @@ func sweepTasks(r *hx.Rand, total int) []*task {
 		"op:=":                {P("1E1000", "1E-1000"), P("nested-object", "lazy-object")},
 	}
 
+	families := relatedFamilies()
 	names := append(allNames(), opNames...)
 	per := total / len(names)
 	if per < 20 {
@@ -560,11 +562,37 @@ func sweepTasks(r *hx.Rand, total int) []*task {
 			}
 			add(args)
 		}
+		// every ordered pair of every family of related texts (deterministic: the same for all seeds)
+		if kind == "call" || name != "op:neg" {
+			for _, fam := range families {
+				for _, a := range fam {
+					for _, b := range fam {
+						add([]VSpec{a, b})
+					}
+				}
+			}
+		}
 		pick := func(pos int) VSpec {
 			if pos >= 1 && rr.Chance(35, 100) {
 				return hx.Pick(rr, numeric)
 			}
 			return hx.Pick(rr, pool)
+		}
+		// longer tuples: with probability 2/5 the arguments are correlated (drawn from one family)
+		pickTuple := func(ar int) []VSpec {
+			args := make([]VSpec, ar)
+			var fam []VSpec
+			if ar >= 2 && rr.Chance(2, 5) {
+				fam = hx.Pick(rr, families)
+			}
+			for j := range args {
+				if fam != nil && rr.Chance(3, 4) {
+					args[j] = hx.Pick(rr, fam)
+				} else {
+					args[j] = pick(j)
+				}
+			}
+			return args
 		}
 		if kind == "op" {
 			ar := 2
@@ -572,11 +600,7 @@ func sweepTasks(r *hx.Rand, total int) []*task {
 				ar = 1
 			}
 			for i := 0; i < per; i++ {
-				args := make([]VSpec, ar)
-				for j := range args {
-					args[j] = pick(j)
-				}
-				add(args)
+				add(pickTuple(ar))
 			}
 		} else {
 			for ar := 0; ar <= 5; ar++ {
@@ -591,11 +615,7 @@ func sweepTasks(r *hx.Rand, total int) []*task {
 					continue
 				}
 				for i := 0; i < n; i++ {
-					args := make([]VSpec, ar)
-					for j := range args {
-						args[j] = pick(j)
-					}
-					add(args)
+					add(pickTuple(ar))
 				}
 			}
 		}
